@@ -1,4 +1,4 @@
-import FeatherModel.Lemmas.TotalCode
+import FeatherModel.Lemmas.TotalPasses
 import FeatherModel.Lemmas.TotalDyn
 import FeatherModel.Lemmas.TotalText
 import FeatherModel.Model.ClassRead
@@ -26,7 +26,8 @@ Nat`, elements are taken modulo 256) and all initial accounts.
 * Recursion: `depth_bound_anno` (≤ |input| / 3 + 1 levels), `depth_bound_dyn_partial` (acyclic: ≤ number of constants
   + 1), `depth_bound_enigma`; unbounded: `dyn_self_reference_witness`; linear and therefore beyond any fixed stack:
   `anno_nesting_witness`.
-* Allocation: `alloc_bound_code` (every request sized by a 16-bit field or by bytes present is ≤ 65535 elements),
+* Allocation: `alloc_bound_code` (every request sized by a 16-bit field or by bytes present is ≤ 65535 elements; needs
+  `passes_visit_same_instructions`),
   `alloc_u32_witness` (the request sized by the raw 32-bit `attribute_length`).
 -/
 
@@ -119,10 +120,21 @@ theorem pass2_fuel (l : Code.Labels) (f1 f2 : Nat) (code : Bytes) (h1 : code.len
     Code.pass2 l f1 (Code.Cur.start code) = Code.pass2 l f2 (Code.Cur.start code) :=
   Code.pass2_fuel l f1 f2 _ (Code.WF.start code) (by simpa [Code.Cur.start] using h1) (by simpa [Code.Cur.start] using h2)
 
+/-- the two decoders agree: where a step of the first pass ends, a successful step of the second pass at the same
+cursor ends too (all 256 opcodes, `wide`, both switches with every padding) -/
+theorem passes_visit_same_instructions (l l2 : Code.Labels) (c : Code.Cur) (st st2 : Acct) (l1 : Code.Labels)
+    (c1 c2 : Code.Cur) (hw : Code.WF c) (hlen : c.len ≤ 65535)
+    (h1 : (Code.pass1Step l c st).1 = .ok (l1, c1)) (h2 : (Code.pass2Step l2 c st2).1 = .ok c2) : c2 = c1 := by
+  have h := (Code.step_agree (B := 65535) (Nat.le_refl _) l l2 c st l1 c1 hw hlen h1 st2).2
+  rw [h2] at h
+  exact h
+
 /-- every allocation request of `read_code` whose size is a 16-bit field, a count derived from one, or the number of
-bytes present is below 2^31; see `alloc_bound_code` for the sharp bound -/
-theorem alloc_bound_code_weak (body : Bytes) : (Code.codeOp body).run.2.alloc ≤ 2147483647 :=
-  (Code.codeOp_spec body).alloc_le
+bytes present is at most 65535 elements (`0·|input| + 65535`).  This includes `Vec::with_capacity(high - low + 1)` and
+`Vec::with_capacity(npairs)` of the second pass (sites 33, 34; up to 2^31 - 1 by themselves): the first pass has read
+that many offsets from the same bytes (`passes_visit_same_instructions`). -/
+theorem alloc_bound_code (body : Bytes) : (Code.codeOp body).run.2.alloc ≤ 65535 :=
+  (Code.codeOp_spec_sharp body).alloc_le
 
 /-- site 6: a 29-byte Code attribute (one unknown attribute with `attribute_length = 0xFFFFFFFF`) requests 4 GiB -/
 theorem alloc_u32_witness :
